@@ -508,11 +508,31 @@ func execConnBigBlock(toks []string) string {
 		<-release
 	})
 	var conns []*memConn
-	big := simpleMsg(280, 0x80, 0, 1, 1, diam.NewAVP(264, 0x40, 0, datatype.DiameterIdentity(strings.Repeat("b", 70000))))
+	// srv=1: all connections belong to ONE Server, and all messages to ONE session (Session-Id):
+	// neither makes the connections wait for each other
+	srvS, _ := kvGet(toks, "srv")
+	var l *scriptListener
+	var done chan error
+	if srvS == "1" {
+		l = &scriptListener{ch: make(chan acceptRes, K+3)}
+		srv := &diam.Server{Handler: h, Dict: dict.Default}
+		done = make(chan error, 1)
+		go func() { done <- srv.Serve(l) }()
+	}
+	start := func(mc *memConn) bool {
+		if l != nil {
+			l.ch <- acceptRes{c: mc}
+			return true
+		}
+		_, err := diam.NewConn(mc, "mem", h, dict.Default)
+		return err == nil
+	}
+	sess := diam.NewAVP(263, 0x40, 0, datatype.UTF8String("the-one-session;1;2"))
+	big := simpleMsg(272, 0x80, 4, 1, 1, sess, diam.NewAVP(264, 0x40, 0, datatype.DiameterIdentity(strings.Repeat("b", 70000))))
 	for i := 0; i < K; i++ {
 		mc := newMemConn()
 		mc.remote = memAddr{"tcp", fmt.Sprintf("10.9.3.%d:49152", i+1)}
-		if _, err := diam.NewConn(mc, "mem", h, dict.Default); err != nil {
+		if !start(mc) {
 			return "err"
 		}
 		conns = append(conns, mc)
@@ -523,8 +543,8 @@ func execConnBigBlock(toks []string) string {
 	other := newMemConn()
 	other.remote = memAddr{"tcp", "10.9.3.99:49152"}
 	res := "lost"
-	if _, err := diam.NewConn(other, "mem", h, dict.Default); err == nil {
-		other.deliver(simpleMsg(280, 0x80, 0, 9, 9, diam.NewAVP(264, 0x40, 0, datatype.DiameterIdentity("s"))))
+	if start(other) {
+		other.deliver(simpleMsg(272, 0x80, 4, 9, 9, sess, diam.NewAVP(264, 0x40, 0, datatype.DiameterIdentity("s"))))
 		other.deliver(append(rawHeader(20+70008, 0x80, 280, 0, 9, 9), rawAVP(264, 0x40, 0, 70008, []byte(strings.Repeat("c", 70000)), true)...))
 		if waitFor(func() bool { return atomic.LoadInt32(&small) == 1 }, 2*time.Second) {
 			res = "served"
@@ -534,6 +554,13 @@ func execConnBigBlock(toks []string) string {
 	for _, mc := range append(conns, other) {
 		mc.Close()
 	}
+	if l != nil {
+		l.ch <- acceptRes{err: acceptPermErr{}}
+		select {
+		case <-done:
+		case <-time.After(time.Second):
+		}
+	}
 	return fmt.Sprintf("started=%d/%d other=%s", n, K, res)
 }
 
@@ -542,6 +569,73 @@ func init() {
 	connGens["bigblock"] = func(r *RNG, n int, op string, emit func(string)) {
 		for _, k := range []int{2, 5, 9} {
 			emit(fmt.Sprintf("conn bigblock k=%d", k))
+			emit(fmt.Sprintf("conn bigblock k=%d srv=1", k))
 		}
+	}
+}
+
+// conn fullrep cn=<1|2>: the application does not read ErrorReports (its one slot is taken by an
+// earlier connection's report). A later connection that ends with something reportable still
+// ends: transport closed, close notification fired - whether it was asked for while the reader
+// was waiting for input (1) or after the end (2) (C14, C15).
+//
+//   conn fullrep cn=<1|2> => closed=<0|1> cn=<fired|quiet>
+func execConnFullRep(toks []string) string {
+	cnS, _ := kvGet(toks, "cn")
+	mux := diam.NewServeMux()
+	garbage := append(rawHeader(20, 0x80, 9999, 0, 1, 1), 1, 2, 3)
+	a := newMemConn()
+	if _, err := diam.NewConn(a, "mem", mux, dict.Default); err != nil {
+		return "err"
+	}
+	a.deliver(garbage)
+	waitFor(a.isClosed, time.Second)
+	b := newMemConn()
+	b.remote = memAddr{"tcp", "10.9.4.2:49152"}
+	cb, err := diam.NewConn(b, "mem", mux, dict.Default)
+	if err != nil {
+		return "err"
+	}
+	waitFor(b.readerParked, time.Second)
+	var cn <-chan struct{}
+	if cnS == "1" {
+		cn = cb.(diam.CloseNotifier).CloseNotify()
+	}
+	b.deliver(garbage)
+	closed := 0
+	if waitFor(b.isClosed, time.Second) {
+		closed = 1
+	}
+	if cnS != "1" {
+		time.Sleep(5 * time.Millisecond)
+		got := make(chan (<-chan struct{}), 1)
+		go func() { got <- cb.(diam.CloseNotifier).CloseNotify() }()
+		select {
+		case cn = <-got:
+		case <-time.After(time.Second):
+			b.Close()
+			return fmt.Sprintf("closed=%d cn=stuck", closed)
+		}
+	}
+	res := "quiet"
+	select {
+	case <-cn:
+		res = "fired"
+	case <-time.After(time.Second):
+	}
+	b.Close()
+	// the slot is emptied so that nothing of this line stays behind
+	select {
+	case <-mux.ErrorReports():
+	default:
+	}
+	return fmt.Sprintf("closed=%d cn=%s", closed, res)
+}
+
+func init() {
+	executors["conn fullrep"] = execConnFullRep
+	connGens["fullrep"] = func(r *RNG, n int, op string, emit func(string)) {
+		emit("conn fullrep cn=1")
+		emit("conn fullrep cn=2")
 	}
 }
